@@ -31,7 +31,7 @@ MIX = {
     'c11': dict(write=14, dele=6, copy=2, read=40, chain=26, bad=4, value=3, reattach=0, validate=5, attach=4, deep=20),
     'c12': dict(write=30, dele=8, copy=3, read=2, chain=4, bad=42, value=8, reattach=3, validate=0, attach=12, deep=8),
     'c05': dict(write=50, dele=10, copy=5, read=2, chain=8, bad=10, value=8, reattach=0, validate=0, attach=14, deep=12),
-    'c04': dict(write=35, dele=10, copy=2, read=2, chain=4, bad=4, value=5, reattach=0, validate=38, attach=4, selfassign=9, c04extra=6, deep=8),
+    'c04': dict(write=35, dele=10, copy=2, read=2, chain=4, bad=4, value=5, reattach=0, validate=38, attach=7, selfassign=9, c04extra=6, deep=8),
 }
 
 SEG_POOL = ['PID', 'PV1', 'NK1', 'OBX', 'EVN', 'MSA', 'ORC', 'OBR', 'AL1', 'DG1', 'IN1', 'NTE', 'PD1', 'QRD', 'ERR', 'QPD', 'RDT']
@@ -320,7 +320,7 @@ class Gen:
         m = self.model(world)
         if self.kind != 'msg':
             return None
-        ref = T.messages(self.version).get(self.init['name'])
+        ref = T.message_ref(self.version, self.init['name'])
         segs, grps = self.msg_children(ref)
         path = []
         node = m
@@ -428,6 +428,22 @@ class Gen:
         if not targets:
             return None
         path, seg_name, node = rng.choice(targets)
+        if rng.random() < 0.3:
+            # a copy taken from the element itself: s.pid_3[i] = s.pid_3 copies the first repetition by
+            # value over the i-th (or appends it), m.nk1[i] = m.nk1 likewise for segments
+            m = self.model(world)
+            if self.kind == 'msg' and m is not None and rng.random() < 0.35:
+                segs = [k for k in m.kids if k.kind == 'seg' and k.key != 'MSH']
+                if segs:
+                    src = rng.choice(segs)
+                    n = len(m.reps('seg', src.key))
+                    return {'k': 'set', 'p': [], 'c': ['seg', src.key, rng.randrange(0, n + 1), 0], 'via': 'item',
+                            'v': {'copy': [0, [], ['seg', src.key, 0, 0]]}}
+            if node is not None and node.kids and node.key != 'MSH':
+                src = rng.choice(node.kids)
+                n = len(node.reps('fld', src.key))
+                return {'k': 'set', 'p': path, 'c': ['fld', src.key, rng.randrange(0, n + 1), self.sp()], 'via': 'item',
+                        'v': {'copy': [0, path, ['fld', src.key, 0, self.sp()]]}}
         ri, mk = self.ensure_side(world, 'seg', seg_name)
         if mk is not None:
             return mk
@@ -487,7 +503,7 @@ class Gen:
         if not read_only and rng.random() < 0.85:
             # write at the end of a chain that may not exist yet
             if self.kind == 'msg':
-                ref = T.messages(self.version).get(self.init['name'])
+                ref = T.message_ref(self.version, self.init['name'])
                 segs, grps = self.msg_children(ref)
                 if not segs:
                     return None
@@ -509,7 +525,7 @@ class Gen:
         # pure read
         path = []
         if self.kind == 'msg':
-            ref = T.messages(self.version).get(self.init['name'])
+            ref = T.message_ref(self.version, self.init['name'])
             segs, grps = self.msg_children(ref)
             if grps and rng.random() < 0.2:
                 g = rng.choice(grps)
@@ -610,6 +626,9 @@ class Gen:
                 op['bad'] = 'cardinality'
             elif self.mixname == 'c09' and self.strict:
                 return None
+            if self.mixname == 'c04' and op.get('datatype'):
+                # a field built with another datatype: the verdict is due right away
+                self.pending.append({'k': 'validate', 'variant': 'errors', 'p': []})
             return op
         if kind == 'readd':
             # add() of an element that already is a child of that very parent
@@ -695,7 +714,7 @@ class Gen:
         if self.kind == 'msg' and rng.random() < 0.4:
             # ... through a segment that does not exist yet either
             m = self.model(world)
-            ref = T.messages(self.version).get(self.init['name'])
+            ref = T.message_ref(self.version, self.init['name'])
             segs, grps = self.msg_children(ref)
             missing = [c for c in segs if m is not None and not m.reps('seg', c[0])]
             if missing:
@@ -817,6 +836,8 @@ class Gen:
         op = {'k': 'validate', 'variant': variant, 'p': []}
         if variant.startswith('report'):
             op['form'] = rng.choice(['errors', 'errors', 'raise'])
+            if variant == 'report_path' and rng.random() < 0.5:
+                op['stale'] = True       # the path already holds an older, longer report
             r = rng.random()
             if r < 0.45:
                 import errno
@@ -835,7 +856,7 @@ class Gen:
         rng = self.rng
         m = self.model(world)
         if self.kind == 'msg':
-            ref = T.messages(self.version).get(self.init['name'])
+            ref = T.message_ref(self.version, self.init['name'])
             segs, grps = self.msg_children(ref)
             if not segs:
                 return None
@@ -883,11 +904,19 @@ class Gen:
             causes += ['msg_other_text', 'seg_cardinality', 'seg_level_mismatch', 'seg_wrong_name']
         if self.twin:     # each twin has its own level: a level mismatch means nothing in lock-step
             causes = [c for c in causes if 'level' not in c]
+        causes += ['unknown_varies']
         cause = rng.choice(causes)
+        if cause == 'unknown_varies':
+            # the one nameless field STRICT lets be constructed (datatype 'varies'): no segment may take it
+            if not targets:
+                return None
+            path, seg_name, node = rng.choice(targets)
+            return {'k': 'add_unknown', 'p': path, 'text': gen.valid_literal('ST', self.tok, rng), 'datatype': 'varies',
+                    'bad': 'unknown_element'}
         other_level = 2 if self.level == 1 else 1
         other_version = rng.choice([v for v in T.VERSIONS if v != self.version])
         if cause.startswith('seg_') or cause == 'msg_other_text':
-            ref = T.messages(self.version).get(self.init['name'])
+            ref = T.message_ref(self.version, self.init['name'])
             segs, grps = self.msg_children(ref)
             if not segs:
                 return None
@@ -919,7 +948,7 @@ class Gen:
             return {'k': 'value', 'p': [], 'text': text, 'bad': 'other_message_text'}
         if self.kind == 'msg' and rng.random() < 0.3 and m is not None:
             # through a segment that exists only by traversal: a refusal must not leave it behind
-            ref = T.messages(self.version).get(self.init['name'])
+            ref = T.message_ref(self.version, self.init['name'])
             segs, grps = self.msg_children(ref)
             missing = [c for c in segs if not m.reps('seg', c[0])]
             if missing:
@@ -1071,6 +1100,10 @@ def gen_init(rng, mix, tok):
             item = VO.make_item(rng, rng.randrange(1000))
         return {'kind': 'msg', 'name': 'RSP_K21', 'version': '2.5', 'level': level if mix == 'c05' else 2, 'ec': 0,
                 'text': item['text'], 'profile': True}
+    if kind == 'msg' and rng.random() < (0.08 if mix == 'c04' else 0.04):
+        # a Z message: no structure of its own, any segment may be added (built through the API only:
+        # the parser's group finder drops the segments of a message it has no structure for)
+        return {'kind': 'msg', 'name': rng.choice(['ZDT_Z01', 'ZZZ_Z99']), 'version': version, 'level': level, 'ec': eci}
     if kind == 'msg':
         pool = [s for s in MSG_POOL if s in T.messages(version)]
         name = rng.choice(pool) if rng.random() < 0.8 else gen.pick_structure(rng, version)
